@@ -21,6 +21,8 @@ LANES = {
     "C09": [dict(REL)],
     "C11": [dict(REL)],
     "C16": [dict(REL)],
+    "C06": [dict(REL)],
+    "C18": [dict(REL), dict(DBG)],
     "C07": [dict(REL), dict(DBG)],
     "C13": [dict(REL)],
     "C14": [dict(REL), dict(DBG)],
